@@ -22,7 +22,7 @@ let () =
     | "seq" :: d :: invs ->
       let rec go disk = function
         | n :: sk :: cur :: f :: rest ->
-          let i = { now = z_of_int (int_of_string n); skip_env = (sk = "1"); writable = not (sk = "2" || sk = "3"); curv = cl cur;
+          let i = { now = z_of_int (int_of_string n); skip_env = (sk = "1"); writable = not (sk = "2" || sk = "3" || sk = "4"); curv = cl cur;
                     fetch = (if f = "!" then None else Some (cl f)) } in
           let (ns, disk') = check_for_updates disk i in
           let lbl = match disk' with _ -> "" in ignore lbl;
